@@ -29,7 +29,7 @@ PATHS = ('max_imfs', 'sift_thresh', 'imf_opts/sd_thresh', 'envelope_opts/interp_
          'extrema_opts/mag_pad_opts/stat_length', 'extrema_opts/loc_pad_opts/reflect_type',
          'newkey', 'imf_opts/newkey', 'extrema_opts/mag_pad_opts/newkey', 'a/b/c/d',
          'extrema_opts/mag_pad_opts', 'imf_opts')
-VALUES = (3, 0.25, None, 'pchip', [1, 2], (0.1, 0.5, 0.1), 'ARRAY', 'DICT', 1e-24)   # 1e-24: a legitimate tiny threshold
+VALUES = (3, 0.25, None, 'pchip', [1, 2], (0.1, 0.5, 0.1), 'ARRAY', 'DICT', 1e-24, 'NESTED')   # 1e-24: a legitimate tiny threshold
 VALID = {('max_imfs', 3), ('sift_thresh', 0.25), ('imf_opts/sd_thresh', 0.25), ('envelope_opts/interp_method', 'pchip'),
          ('extrema_opts/mag_pad_opts/stat_length', 3)}
 SMALL_VALUES = (3, None, (0.1, 0.5, 0.1), 'DICT')
@@ -38,6 +38,8 @@ SMALL_VALUES = (3, None, (0.1, 0.5, 0.1), 'DICT')
 def value_of(v):
     if isinstance(v, str) and v == 'ARRAY':
         return np.array([.3, .1])
+    if isinstance(v, str) and v == 'NESTED':
+        return ((2, 1),)              # a tuple inside a tuple: numpy.pad's per-axis form of stat_length / constant_values
     if isinstance(v, str) and v == 'DICT':
         return {'mode': 'edge'}       # a dictionary written over an entry (which may itself be a dictionary)
     return copy.deepcopy(v)
@@ -57,6 +59,10 @@ def ops_full():
                     ops.append(('nset', p, v))
                 ops.append(('ndel', p, None))
         ops.append(('del', p, None))
+    # the mapping's bulk write (`update`) with key paths is the same write
+    for p in ('imf_opts/sd_thresh', 'extrema_opts/mag_pad_opts/stat_length', 'imf_opts/newkey', 'max_imfs'):
+        for v in (3, 'DICT'):
+            ops.append(('update', p, v))
     # a whole group written back with an equal-valued copy of itself (cfg[g] = dict(cfg[g])): changes nothing visible
     for p in ('imf_opts', 'extrema_opts/mag_pad_opts'):
         ops.append(('set', p, 'SAME'))
@@ -81,6 +87,8 @@ def real_apply(cfg, op):
         cfg[path] = copy.deepcopy(cfg[path])
     elif kind == 'set':
         cfg[path] = value_of(v)
+    elif kind == 'update':
+        cfg.update({path: value_of(v)})
     elif kind == 'del':
         del cfg[path]
     else:
@@ -142,7 +150,7 @@ def model_apply(model, op):
             d = d[c]
         if kind == 'set' and isinstance(v, str) and v == 'SAME':
             d[comps[-1]] = copy.deepcopy(d[comps[-1]])
-        elif kind in ('set', 'nset'):
+        elif kind in ('set', 'nset', 'update'):
             d[comps[-1]] = value_of(v)
         else:
             del d[comps[-1]]
